@@ -67,7 +67,7 @@ Prefix512 == [pi \in 1..512 |-> (pi * 7) % 251]
 
 Cfgs == {[ver |-> cc[1], shift |-> cc[2], hcount |-> 4, ndel |-> cc[3], hibt |-> cc[4],
           prefix |-> IF cc[4] THEN Prefix512 ELSE <<>>] :
-            cc \in {c4 \in {0, 1} \X {0, 1} \X {0, 1} \X BOOLEAN :
+            cc \in {c4 \in (IF Model = "cov" THEN {0, 1} ELSE {0, 1, 2}) \X {0, 1} \X {0, 1} \X BOOLEAN :
                       /\ (Model = "cov" => c4[3] = 1)
                       /\ (Model # "thorough" => c4[4] = (c4[3] = 1))}}
 
